@@ -9,7 +9,33 @@ import (
 	"github.com/php-any/origami/runtime"
 )
 
+var dbgTests int
+
 func bench() {
+	if file := os.Getenv("VERIF_C01_SEQ"); file != "" {
+		var from, to int
+		fmt.Sscan(os.Getenv("VERIF_C01_SEQ_RANGE"), &from, &to)
+		for i := from; i < to; i++ {
+			src, _ := caseSrc(kase{Mode: 1, Note: fmt.Sprintf("%s prefix #%d", file, i)})
+			v := check(src, 1, false)
+			if v.Clause != "" {
+				fmt.Println(i, v.Key, len(hangCache))
+			}
+		}
+		os.Exit(0)
+	}
+	if note := os.Getenv("VERIF_C01_ATTR"); note != "" {
+		src, ok := caseSrc(kase{Mode: 1, Note: note})
+		fmt.Println("src", len(src), ok)
+		t := cpuNow()
+		n := 0
+		red := reduceText(src, 1, func(s string) bool { n++; return parseOnly(s, 1, probe(len(s))).Kind == "fuel" })
+		fmt.Printf("reduce: %d tests, %v cpu, -> %d bytes %q\n", n, cpuNow()-t, len(red), red)
+		t = cpuNow()
+		k, d, _ := decideHang(src, 1)
+		fmt.Println("attribute total:", cpuNow()-t, k, d)
+		os.Exit(0)
+	}
 	if src := os.Getenv("VERIF_C01_STACK"); src != "" {
 		mode := 0
 		if len(src) > 5 && src[:5] == "<?php" {
